@@ -109,7 +109,7 @@ class C06(Prop):
     def before(self, w, ev):
         if ev["op"] == "fs_put":
             self.design = ev.get("design")
-            if self.design and any(p.get("alias") or p.get("alias_wide") for m in self.design["modules"] for p in m["ports"]):
+            if self.design and any(p.get("alias") or p.get("alias_wide") or p.get("alias_bits") for m in self.design["modules"] for p in m["ports"]):
                 w.count("probe.design_with_aliased_header_port")
         if ev["op"] == "parse":
             return World.process_state_fingerprint()
